@@ -450,6 +450,21 @@ func (x *Exec) evalCall(c *evalCtx, call ECall) (Val, error) {
 		c2 := *c
 		c2.inOld = true
 		return x.evalExpr(&c2, call.Args[0])
+	case "opts":
+		a, err := x.evalArgs(c, call.Args)
+		if err != nil {
+			return Val{}, err
+		}
+		if len(a) != 1 || a[0].K != VSlice || a[0].Abs == nil || a[0].Abs.Unknown {
+			return Val{}, fmt.Errorf("opts(): option list value not tracked")
+		}
+		fields, _ := x.optRecord(c.state(), a[0].Abs)
+		ot := x.optionsType()
+		v := Val{K: VStruct, GoT: ot}
+		for _, f := range structFields(ot) {
+			v.Parts = append(v.Parts, fields[f.Name()])
+		}
+		return v, nil
 	case "ite":
 		a, err := x.evalArgs(c, call.Args)
 		if err != nil {
